@@ -411,22 +411,33 @@ def run(ctx, ck):
         n_ok += 1
     ck.ob('R-TAGS.compute_tags', ct.qual + '|sorted', ok and n_ok > 0, ct.loc(), 'objects sorted by tag after all tags are assigned')
     # positions after sorting
+    # on the symbolic walk of the constructor (helpers, loops over bound methods looked through): on every path
+    # segments, ground (= positions) and connectivity are computed once each in this order, and the tags (which
+    # sort the objects) before the positions are handed out
     ini = m.func('mininec.Mininec.__init__')
-    ifl = ctx.flow(ini)
-    seq = []
-    for name in ('compute_segments', 'compute_ground', 'compute_connectivity'):
-        cs = calls_in(ini.node, attr=name)
-        if len(cs) != 1:
-            raise AnalysisError('Mininec.__init__: %d calls of %s' % (len(cs), name))
-        seq.append((name, ifl.node_id_of(cs[0]), cs[0]))
-    for (a, ia, ca), (b, ib, cb) in zip(seq, seq[1:]):
-        ck.ob('R-ORDER.positions-after-sort', 'Mininec.__init__|%s<%s' % (a, b),
-              ifl.cfg.must_pass(ib, {ia}), ini.loc(cb), '%s before %s' % (a, b))
-    tg = calls_in(ini.node, attr='compute_tags')
-    ok = len(tg) == 1 and not (seq[1][1] in ifl.cfg.reachable_from(seq[1][1]) and False)
-    if ok:
-        # compute_tags (list input) happens before compute_ground
-        ok = ifl.node_id_of(tg[0]) not in ifl.cfg.reachable_from(seq[1][1])
+    steps = ('compute_tags', 'compute_segments', 'compute_ground', 'compute_connectivity')
+    keep = {g_.qual for g_ in m.all_funcs() if g_.name in steps}
+    ipaths = [p_ for p_ in SymExec(ctx, ini, bind_loops=True, effects=True, depth=3, max_paths=2000, no_expand=keep).run()
+              if p_.end != 'raise']
+    if not ipaths:
+        raise AnalysisError('Mininec.__init__: no path returns')
+    orders = set()
+    for p_ in ipaths:
+        seq_ = []
+        for ev in p_.events:
+            if ev[0] == 'call' and isinstance(ev[1], ast.Call):
+                nm_ = ev[1].func.attr if isinstance(ev[1].func, ast.Attribute) else (ev[1].func.id if isinstance(ev[1].func, ast.Name) else None)
+                if nm_ in steps:
+                    seq_.append(nm_)
+        orders.add(tuple(seq_))
+    if not any('compute_segments' in o_ for o_ in orders):
+        raise AnalysisError('Mininec.__init__: no call of compute_segments on the symbolic paths (%s)' % sorted(orders))
+    for a, b in zip(steps[1:], steps[2:]):
+        ok = all(o_.count(a) == 1 and o_.count(b) == 1 and o_.index(a) < o_.index(b) for o_ in orders)
+        ck.ob('R-ORDER.positions-after-sort', 'Mininec.__init__|%s<%s' % (a, b), ok, ini.loc(),
+              '%s before %s, once each, on all %d paths: %s' % (a, b, len(ipaths), sorted(orders)))
+    ok = all(o_.count('compute_tags') <= 1 and ('compute_tags' not in o_ or o_.index('compute_tags') < o_.index('compute_ground'))
+             for o_ in orders if 'compute_ground' in o_) and any('compute_tags' in o_ for o_ in orders)
     ck.ob('R-ORDER.positions-after-sort', 'Mininec.__init__|tags<ground', ok, ini.loc(),
           'tags are computed (and objects sorted) before positions are assigned')
     cg = m.func('mininec.Geo_Container.compute_ground')
